@@ -818,3 +818,75 @@ Proof.
   - apply N.leb_gt in E. exists (firstn (length sl - N.to_nat k_highlights) sl). rewrite firstn_skipn.
     split; [reflexivity|]. unfold nlen in *. rewrite skipn_length. split; [lia|]. intros _. lia.
 Qed.
+
+(* ---------- … and in every interleaving of concurrent calls ---------- *)
+Definition aG (a : astate) : Prop :=
+  match a with
+  | ACut _ _ snap _ _ => Forall (fun m => fst m <> 0) (msgs snap)
+  | AWrite _ _ snap p _ _ _ =>
+      Forall (fun m => fst m <> 0) (msgs snap) /\ exists x, In (pl_seq p, pl_mid p, x) (msg_full snap)
+  | _ => True
+  end.
+
+Lemma G_put_art s v : G (log s) -> G (log (fst (put_art s v))).
+Proof. intros H. exact H. Qed.
+
+Lemma astep_G K s a : G (log s) -> aG a -> G (log (fst (astep K s a))) /\ aG (snd (astep K s a)).
+Proof.
+  intros HG Ha. unfold astep, astep_gen. destruct a; cbn [aG] in Ha.
+  - destruct (c_sched c); [destruct (plan_cuts K (c_stride c) (c_maxnew c) (log s))|]; cbn [fst snd aG]; auto.
+  - destruct (if c_block c then find_inflight K (log s) else None); cbn [fst snd aG]; auto.
+  - cbn [fst snd aG]. split; [|exact I]. apply not_ck_append; [exact HG | unfold decided_body; intros; discriminate].
+  - destruct (plan_cuts K (c_stride c) (c_maxnew c) (log s)); cbn [fst snd aG]; auto.
+  - destruct (c_sched c); cbn [fst snd aG]; (split; [|exact I]); apply not_ck_append; try exact HG; intros; discriminate.
+  - destruct (c_exec c); cbn [fst snd aG]; (split; [|exact I]); apply not_ck_append; try exact HG;
+      unfold decided_body; intros; discriminate.
+  - cbn [fst snd aG]. split; [exact HG | apply HG].
+  - destruct todo as [|p rest]; [cbn [fst snd aG]; auto|].
+    destruct (cut_read K snap s p) as [v|e] eqn:E; cbn [fst snd aG]; [|auto].
+    split; [exact HG|]. split; [exact Ha | eapply cut_read_in, E].
+  - destruct Ha as [Hsnap [x Hx]]. unfold put_art. cbn [fst snd aG]. split; [|exact Hsnap].
+    apply (G_append {| log := log s; arts := arts s ++ [(fresh_art s, v)] |}); [exact HG|].
+    intros r a t m E. injection E as _ _ <- _. eapply msg_full_seq_nonzero; eassumption.
+  - cbn [fst snd aG]. split; [|exact I]. apply not_ck_append; [exact HG | intros; discriminate].
+  - cbn [fst snd]. split; [exact HG | destruct ms; exact I].
+  - destruct ms as [|[a c] rest]; cbn [fst snd]; [split; [exact HG | exact I]|].
+    split; [apply not_ck_append; [exact HG | intros; discriminate] | destruct rest; exact I].
+  - cbn [fst snd aG]. auto.
+Qed.
+
+Definition CG (s : st) (acts : list astate) : Prop := G (log s) /\ Forall aG acts.
+
+Lemma CG_step K s pre a post : CG s (pre ++ a :: post) -> CG (fst (astep K s a)) (pre ++ snd (astep K s a) :: post).
+Proof.
+  intros [HG Hf]. apply Forall_app in Hf. destruct Hf as [Hpre Hf]. inversion Hf as [|a0 l0 Ha Hpost]; subst.
+  destruct (astep_G K s a HG Ha) as [HG' Ha']. split; [exact HG'|].
+  apply Forall_app. split; [exact Hpre|]. constructor; [exact Ha' | exact Hpost].
+Qed.
+
+Theorem CG_steps K x y : sys_steps K x y -> CG (fst x) (snd x) -> CG (fst y) (snd y).
+Proof.
+  induction 1 as [|x y z H1 H2 IH]; intros H; [exact H|]. apply IH. destruct H1. cbn [fst snd] in *.
+  apply CG_step, H.
+Qed.
+
+Lemma aG_start calls : Forall aG (map start_of calls).
+Proof. induction calls as [|c r IH]; [constructor|]. constructor; [destruct c; exact I | exact IH]. Qed.
+
+Lemma valid_steps K x y : sys_steps K x y -> valid (log (fst x)) -> valid (log (fst y)).
+Proof.
+  induction 1 as [|x y z H1 H2 IH]; intros H; [exact H|]. apply IH. destruct H1. cbn [fst snd] in *.
+  apply astep_valid, H.
+Qed.
+
+(* any interleaving of concurrent calls and message appenders, started after any modelled operations on a fresh
+   thread: still no checkpoint frame with to_seq 0, message seqs still sorted *)
+Theorem concurrent_summary_hyps K ops calls s' acts' :
+  sys_steps K (fst (run_ops K st0 ops []), map start_of calls) (s', acts') ->
+  msorted (log s') /\ Forall (fun c => ck_to c <> 0) (ckpts (log s')).
+Proof.
+  intros H. split.
+  - apply valid_msgs_sorted. apply (valid_steps K _ _ H). cbn [fst]. apply (reachable_valid K ops st0 []), valid_st0.
+  - pose proof (CG_steps K _ _ H) as Hc. cbn [fst snd] in Hc. apply Hc.
+    split; [apply (run_ops_G K ops st0 [] G_st0) | apply aG_start].
+Qed.
